@@ -22,6 +22,8 @@ let parse_op (tok : string) : op =
   | 'R' -> ORun
   | 'V' -> OWrite2 (parse_lens arg)
   | 'X' -> OCloseSend
+  | 'N' -> OWriteNomem (parse_lens arg)       (* uv_write while uv__malloc fails *)
+  | 'M' -> OWrite2Nomem (parse_lens arg)      (* uv_write2 (send handle) while uv__malloc fails *)
   | _ -> failwith ("bad op " ^ tok)
 
 let parse_answer (tok : string) : answer =
